@@ -656,8 +656,8 @@ func TestCheck(t *testing.T) {
 	}
 	cov := map[string]any{
 		"states":                                      en.states.Len() + len(ccs) + int(ps.pure),
-		"transitions":                                 int(en.execs.Get()) + chainDone + int(ps.real+ps.block+ps.token) + btxs,
-		"traces_validated_against_impl":               int(en.execs.Get()) + chainDone + int(ps.real+ps.block+ps.token+ps.pure),
+		"transitions":                                 int(en.execs.Get()) + chainDone + int(ps.real+ps.block+ps.token+ps.entry) + btxs,
+		"traces_validated_against_impl":               int(en.execs.Get()) + chainDone + int(ps.real+ps.block+ps.token+ps.entry+ps.pure),
 		"flag_sets":                                   16,
 		"operations":                                  len(specs),
 		"operations_native_methods":                   len(nat),
@@ -762,8 +762,8 @@ func runPerm(r *vk.Run, ps *permStats) map[string]any {
 	}
 	// the same matrix through method tokens for the callers with at most one permission
 	var tks []pj
+	var tcs []callerSpec
 	{
-		var tcs []callerSpec
 		for _, cs := range dep {
 			if len(cs.Perms) <= 1 {
 				tcs = append(tcs, cs)
@@ -771,6 +771,10 @@ func runPerm(r *vk.Run, ps *permStats) map[string]any {
 		}
 		if err := pw.deployTokenCallers(tcs); err != nil {
 			fmt.Println("CHECK-ERROR: cannot deploy the token callers:", err)
+			os.Exit(3)
+		}
+		if err := pw.deployEntryCallers(tcs); err != nil {
+			fmt.Println("CHECK-ERROR: cannot deploy the entry-context callers:", err)
 			os.Exit(3)
 		}
 		for _, cs := range tcs {
@@ -868,6 +872,11 @@ func runPerm(r *vk.Run, ps *permStats) map[string]any {
 		}
 	}
 	blockSubset("perm-block")
+	// entry contexts: the same matrix when the caller's code is entered as verify,
+	// _deploy, onNEP17Payment, _initialize, a loaded script (and an ordinary method)
+	er := &entryRunner{r: r, pw: pw, st: &entryStats{byCtx: map[string]int64{}}, reported: map[string]int{}}
+	er.matrix(tcs, "")
+	er.blocks(tcs, "", []string{"call", "token"}, vk.Pick(r, 5, 1))
 	// graceful restart on the same store: the Management cache is rebuilt from the
 	// STORED (stack item) form of every manifest; the predicate must hold as before
 	restarted := false
@@ -882,6 +891,8 @@ func runPerm(r *vk.Run, ps *permStats) map[string]any {
 		realMatrix("perm-real-after-restart")
 		tokenMatrix("perm-token-after-restart")
 		blockSubset("perm-block-after-restart")
+		er.matrix(tcs, "-after-restart")
+		er.blocks(tcs, "-after-restart", []string{"call"}, vk.Pick(r, 5, 1))
 	}
 	info := map[string]any{
 		"contract_descriptors":          pw.descs,
@@ -900,6 +911,20 @@ func runPerm(r *vk.Run, ps *permStats) map[string]any {
 		"observed_not_judged_call_of_non_safe_method_from_a_script_loaded_by_a_caller_without_permissions": loadObs,
 	}
 	info["mismatches_group_root_cause_by_subcheck"] = ps.rootBySub
+	info["entry_context_cells"] = er.st.cells
+	info["entry_context_cells_by_subcheck"] = er.st.byCtx
+	info["entry_context_cells_not_applicable"] = er.st.na
+	info["entry_context_blocks"] = er.st.blocks
+	info["entry_contexts"] = "app (ordinary method), init (_initialize), payment (onNEP17Payment called by GAS.transfer), deploy (_deploy of a new instance), update (_deploy(isUpdate) after the wildcard instance updated itself to the shape's manifest), loadscript, verify-witness (Blockchain.VerifyWitness), verify-tx (Blockchain.VerifyTx), verify-block (AddBlock); kinds: System.Contract.Call and CALLT"
+	info["loaded_script_called_unpermitted_method"] = er.st.loadSkips
+	ps.entry = er.st.cells
+	if er.loadWit != nil {
+		r.Violation("permission:entry-loadscript:loaded-script-skips-permission-check", map[string]any{
+			"what":         "a script loaded with System.Runtime.LoadScript by a deployed contract calls a non-safe method that no permission of the contract's manifest allows (the loaded context has no manifest, callInternal skips the check)",
+			"minimal_case": er.loadWit,
+			"cells":        er.st.loadSkips,
+		})
+	}
 	if len(ps.witness) > 0 {
 		min := ps.witness["perm-pure"]
 		if min == nil {
